@@ -115,7 +115,8 @@ def alphabet18(P):
 
 def near_miss():
     """lines that a changed search needle (shorter, longer, other case) would classify differently"""
-    return [b"/opt/mysnoopy.so", b"/lib/libsnoopy-extra.so", b"/lib/libsnoopy.s", b"/lib/LIBSNOOPY.SO", b"/lib/libsnoopy.so.1"]
+    return [b"/opt/mysnoopy.so", b"/lib/libsnoopy-extra.so", b"/lib/libsnoopy.s", b"/lib/LIBSNOOPY.SO", b"/lib/libsnoopy.so.1",
+            b"libsnoopy.so", P_MAIN + b".0.0.0"]        # a bare entry without any '/', the path followed by non-blank characters
 
 
 def adjacent(P):
